@@ -83,7 +83,7 @@ def ref_noise_diag(r, n, batch_shape, test_noise=None):
 # ---------------------------------------------------------------------------------------------------
 # model recipes
 # ---------------------------------------------------------------------------------------------------
-MODEL_BATCH = [[], [], [], [2], [2], [3]]
+MODEL_BATCH = [[], [], [], [2], [2], [3], [2, 2]]
 
 
 @st.composite
